@@ -299,3 +299,21 @@ def kvec(d):
     if d.get("im") is None:
         return np.array(d["re"], dtype=float)
     return np.array(d["re"], dtype=float) + 1j * np.array(d["im"], dtype=float)
+
+
+@st.composite
+def sharp_lines(draw, n_lo, n_hi, nffts, noises, cplx=None, kmax=3):
+    """A high-SNR narrow-band record: K on-grid sinusoids (bins of an NFFT drawn from ``nffts``) of amplitude 0.5..2 over
+    white noise of a drawn small level.  Returns (descriptor, nfft, K, noise).  The spectra of such records have peaks
+    1/noise^2 above the floor: equalities that hold in exact arithmetic are asserted with a tolerance that scales with the
+    stated conditioning, so that an algebraically equivalent but cancelling rewrite of the evaluation is seen."""
+    cplx = draw(st.booleans()) if cplx is None else cplx
+    N = draw(st.integers(n_lo, n_hi))
+    nfft = draw(st.sampled_from([v for v in nffts if v >= 16]))
+    K = draw(st.integers(1, kmax))
+    lo, hi = (-(nfft // 2) + 2, nfft // 2 - 2) if cplx else (3, nfft // 2 - 3)
+    bins = draw(st.lists(st.integers(lo, hi), min_size=K, max_size=K, unique=True))
+    tones = [[b / float(nfft), draw(st.sampled_from([0.5, 1.0, 1.5, 2.0])), draw(st.floats(0, 6.283))] for b in bins]
+    noise = draw(st.sampled_from(list(noises)))
+    d = {"kind": "tones", "n": N, "complex": cplx, "seed": draw(seeds), "tones": tones, "noise": noise}
+    return d, nfft, K, noise
